@@ -285,6 +285,18 @@ class AccessMixin(object):
         else:
           yield o[0], self.dict_get(o[0], base, key)
       return
+    if k == 'ref' and self.reg.classes.get(base.ty.name) is not None and self.reg.classes[base.ty.name].listlike:
+      ci = self.reg.classes[base.ty.name]
+      c = z3.simplify(idx.t)
+      if not z3.is_int_value(c):
+        raise Unsupported('record index must be constant (line %s)' % getattr(node, 'lineno', '?'))
+      for o in self.get_attr(st, cx, base, ci.listlike[c.as_long()], node):
+        yield o
+      return
+    if k == 'ref' and (base.ty.name + '.__getitem__') in self.reg.externs:
+      for o in self.call_extern(st, cx, base.ty.name + '.__getitem__', base, [idx], {}, node):
+        yield o
+      return
     if k == 'ref' and self.dictlike_info(base.ty) is not None:
       ci = self.dictlike_info(base.ty)
       f = self.dl_field(ci, idx, node)
@@ -320,6 +332,13 @@ class AccessMixin(object):
 
   def ev_slice(self, st, cx, base, sl, node):
     """xs[a:b] creates a fresh list whose items are given by a quantified fact."""
+    if (isinstance(base, V) and base.ty.k == 'ref' and self.reg.classes.get(base.ty.name) is not None
+        and self.reg.classes[base.ty.name].listlike and sl.step is None and sl.lower is None
+        and isinstance(sl.upper, ast.Constant) and isinstance(sl.upper.value, int)):
+      names = self.reg.classes[base.ty.name].listlike[:sl.upper.value]
+      items = [self.load_field(st, base.t, base.ty.name, f) for f in names]
+      yield st, V(Ty('tuple', [i.ty for i in items]), items=items)
+      return
     if not (isinstance(base, V) and base.ty.k == 'list') or sl.step is not None:
       raise Unsupported('slice of %r (line %s)' % (base, getattr(node, 'lineno', '?')))
     parts = [sl.lower or ast.Constant(value=0), sl.upper or ast.Constant(value=None)]
